@@ -187,6 +187,7 @@ func (d *driver) runPath(t task, ts *TermStore, sol *Solver) {
 	ex.resetPath(t.prefix)
 	ex.harness = t.j.label()
 	ex.splits = t.j.splits
+	ex.splitN = nil
 	ex.tier = tierNum(d.rc.tier)
 	kind := "completed"
 	var splitReq string
@@ -356,7 +357,7 @@ func (k *knownFinding) matches(prop string, v *Violation) bool {
 		return false
 	}
 	if k.Site != "" {
-		hay := v.Site + " " + strings.Join(v.Stack, " ") + " " + v.Msg
+		hay := v.Site + " " + strings.Join(v.Stack, " ") + " " + v.Msg + " " + v.Model["note"]
 		for _, part := range strings.Split(k.Site, " && ") {
 			if !strings.Contains(hay, part) {
 				return false
